@@ -125,6 +125,9 @@ struct Ghost {
     tracked: Vec<(u32, u64)>,     // (sequence number, time) of the data packets handed to the shell lately (newest last, <= 512)
     removed_addrs: BTreeSet<u8>,  // address tokens of the uplinks removed by a reload so far in this case
     reload_new_ids: BTreeSet<u64>, // conn ids of the uplinks a reload created in this case (coverage counters only)
+    /// B1: per conn id the datagrams the harness SENT to the uplink's current socket and has not yet seen handed to
+    /// the shell (cut to 1500 bytes, empty ones left out), oldest first
+    rx_sent: BTreeMap<u64, std::collections::VecDeque<Vec<u8>>>,
 }
 
 struct SysComp {
@@ -762,6 +765,10 @@ impl SysComp {
         // the probe id is private and random; it is only ever put on the wire inside probe REG2s,
         // which the observation prints as a type tag (see `canon_wire`)
         let (packet_tx, packet_rx) = create_uplink_channel();
+        // B1 (receive side): one REAL reader task per uplink from start-up on, exactly as the loop does
+        // (`sync_readers` right after `create_uplink_channel`); they feed the world's packet channel
+        let mut readers: HashMap<ConnectionId, ReaderHandle> = HashMap::new();
+        sync_readers(&links, &io, &mut readers, &packet_tx);
         let (instant_tx, instant_rx) = tokio::sync::mpsc::unbounded_channel();
         let listener = self.rt.block_on(async { tokio::net::UdpSocket::bind("127.0.0.1:0").await.unwrap() });
         let client = StdUdp::bind("127.0.0.1:0").unwrap();
@@ -779,7 +786,7 @@ impl SysComp {
             cfg: ConfigSnapshot::default(),
             crit: CriticalWindow::new(),
             all_failed_at: None,
-            readers: HashMap::new(),
+            readers,
             packet_tx,
             _packet_rx: packet_rx,
             instant_tx,
@@ -910,6 +917,11 @@ impl Component for SysComp {
          every case with index 5 mod 16 is the lopsided-share scenario (hkarm at every tick, one uplink starved by a \
          tiny window, late / missing keepalive echoes, phases under the 100 kbit/s floor, a NAK-heavy loss phase, an \
          optional reload) in which weak / probation / back-off / loss-degraded verdicts are reached and stamped. \
+         Every case with index 3 mod 4 or 6 mod 16 (half of the reload cases) takes the SOCKET path for its uplink traffic (ops rxpush / rxerr / rxrun: the \
+         datagram is sent to the uplink's real socket, read by the REAL reader task into the REAL packet channel and \
+         handed to the shell by the REAL drain_packet_queue), with inert junk backlogs of 1 / 33..40 / 64..70 datagrams \
+         (more than one recvmmsg batch, more than one drain budget), empty datagrams, receive-error sentinels and \
+         relayable datagrams of 1499 / 1500 / 1501 / 2000 bytes. \
          Thorough tier: cases up to 450 steps. Non-trivial: registration completed and at least one datagram was put \
          on the wire."
     }
@@ -924,6 +936,51 @@ impl Component for SysComp {
                     *l = format!("hkarm {rest}");
                 }
             }
+        }
+        // B1: every case with index 3 mod 4 or 6 mod 16 takes the SOCKET path for its uplink traffic: an `uplink` op becomes
+        // `rxpush` (the datagram is sent to the uplink's real socket and read by the real reader task) followed by
+        // `rxrun` (the real `drain_packet_queue` on the real channel).  Around the datagram: inert junk the shell drops
+        // (empty datagrams the reader skips, 1-byte datagrams, receive-error sentinels) in backlogs of 1 / 33..40 (more
+        // than one recvmmsg batch) / 64..70 (more than one drain budget), and now and then a relayable datagram of
+        // 1500 / 1501 / 2000 bytes (cut to the 1500-byte receive buffer).
+        if idx % 4 == 3 || idx % 16 == 6 {
+            let mut out = Vec::with_capacity(ops.len() * 2);
+            for l in ops {
+                let t: Vec<&str> = l.split(' ').collect();
+                if let ["uplink", now, cid, h] = t.as_slice() {
+                    if *h == "-" {
+                        out.push(format!("rxerr {cid}"));
+                        out.push(format!("rxrun {now}"));
+                        continue;
+                    }
+                    let (junk, drains) = match rng.below(20) {
+                        0..=9 => (String::new(), 1),
+                        10..=12 => ("-,07,".to_string(), 1),
+                        13..=15 => (format!("{}*07,", rng.range(33, 40)), 1),
+                        16..=17 => (format!("{}*07,-,", rng.range(64, 70)), 2),
+                        _ => ("-,".to_string(), 1),
+                    };
+                    if rng.chance(1, 12) {
+                        out.push(format!("rxerr {cid}"));
+                    }
+                    out.push(format!("rxpush {cid} {junk}{h}"));
+                    for _ in 0..drains {
+                        out.push(format!("rxrun {now}"));
+                    }
+                    if rng.chance(1, 10) {
+                        // an SRT control datagram of an unassigned type (relayed like any non-internal datagram)
+                        // at and beyond the receive buffer size
+                        let len = *rng.pick(&[1499usize, 1500, 1501, 2000]);
+                        let mut b = vec![0x80u8, 0x07];
+                        b.extend(rng.bytes(len - 2));
+                        out.push(format!("rxpush {cid} {}", to_hex(&b)));
+                        out.push(format!("rxrun {now}"));
+                    }
+                } else {
+                    out.push(l);
+                }
+            }
+            ops = out;
         }
         ops
     }
@@ -1055,8 +1112,17 @@ impl SysComp {
             return self.reload_op(now, &addrs, &fails, &seed_probe, mon);
         }
 
+        // ---- B1: the receive side (real reader tasks, the real packet channel)
+        if let ["rxpush", cid, specs] = toks {
+            return self.rx_push(cid, specs, mon);
+        }
+        if let ["rxerr", cid] = toks {
+            return self.rx_err(cid, mon);
+        }
+
         // ---- parse
         enum Op {
+            RxRun(u64),
             Probe(u64),
             Client(u64, Vec<u8>),
             Uplink(u64, u64, Vec<u8>),
@@ -1083,6 +1149,7 @@ impl SysComp {
                 _ => None,
             },
             ["flush", now] => now.parse().ok().map(Op::Flush),
+            ["rxrun", now] => now.parse().ok().map(Op::RxRun),
             ["hk", now] => now.parse().ok().map(Op::Hk),
             // the housekeeping arm up to and including the stamping loop: `hk`, then the arm's tail (`arm_tail`)
             ["hkarm", now] => now.parse().ok().map(Op::Hk),
@@ -1185,7 +1252,7 @@ impl SysComp {
         }
 
         let now = match &parsed {
-            Op::Probe(n) | Op::Flush(n) | Op::Hk(n) => *n,
+            Op::Probe(n) | Op::Flush(n) | Op::Hk(n) | Op::RxRun(n) => *n,
             Op::Client(n, _) | Op::Uplink(n, _, _) | Op::Burst(n, _, _, _) => *n,
             _ => 0,
         };
@@ -1214,6 +1281,8 @@ impl SysComp {
         };
 
         // ---- execute on the real shell
+        // B1: what the real packet channel holds before the arm (op `rxrun`)
+        let rx_before: Vec<(u64, Vec<u8>)> = if let Op::RxRun(_) = &parsed { self.w.as_mut().unwrap().chan_snapshot() } else { Vec::new() };
         verif_clock::set(Some(now));
         let mut hk_err = false;
         {
@@ -1291,6 +1360,20 @@ impl SysComp {
                 Op::Flush(_) => {
                     rt.block_on(flush_all_batches(&mut w.links, &w.io));
                 }
+                Op::RxRun(_) => {
+                    // the REAL `drain_packet_queue` on the REAL channel the reader tasks feed
+                    rt.block_on(drain_packet_queue(
+                        &mut w._packet_rx,
+                        &mut w.links,
+                        &w.io,
+                        &mut w.reg,
+                        &w.instant_tx,
+                        w.last_client,
+                        &w.listener,
+                        &w.trk,
+                        &w.cfg,
+                    ));
+                }
                 Op::Hk(now) => {
                     let classic = w.cfg.mode.is_classic();
                     let r = rt.block_on(handle_housekeeping(
@@ -1304,6 +1387,9 @@ impl SysComp {
                         &w.packet_tx,
                     ));
                     hk_err = r.is_err();
+                    // B1: the arm ends with the REAL `sync_readers` (idempotent when the link set did not change)
+                    let _guard = rt.enter();
+                    sync_readers(&w.links, &w.io, &mut w.readers, &w.packet_tx);
                 }
                 _ => {}
             }
@@ -1330,14 +1416,23 @@ impl SysComp {
         // op `hkarm`: the generic monitors judge the `handle_housekeeping` part exactly as for `hk` (the stamped
         // verdicts must not move THERE); the classifier / controller / stamping tail of the arm runs afterwards
         let arm = toks[0] == "hkarm";
-        let mon_op = if arm { format!("hk {now}") } else { op.clone() };
+        // B1: a drain that handed exactly one datagram of two or more bytes to the shell (junk of < 2 bytes and
+        // sentinels are inert) is judged by the generic monitors exactly like the `uplink` op of that datagram
+        let rx_after: Vec<(u64, Vec<u8>)> = if let Op::RxRun(_) = &parsed { self.w.as_mut().unwrap().chan_snapshot() } else { Vec::new() };
+        let rx_equiv: Option<String> = if let Op::RxRun(_) = &parsed {
+            self.rx_run_monitors(now, &rx_before, &rx_after, pre_client_known, &pre_ids, &client, mon)
+        } else {
+            None
+        };
+        let mon_op = if arm { format!("hk {now}") } else if let Some(e) = &rx_equiv { e.clone() } else { op.clone() };
         self.monitors(&parsed_kind(&parsed), now, &pre, &pre_ids, &pre_fail, &pre_bind_fail, pre_has_connected, pre_client_known, &cfg, &wire, &client, mon, &mon_op);
         let arm_out = if arm { self.arm_tail(now, mon) } else { String::new() };
 
         let w = self.w.as_ref().unwrap();
         let ws: Vec<String> = wire.iter().map(|(id, d)| format!("{id}:{}", to_hex(d))).collect();
         let cs: Vec<String> = client.iter().map(|d| to_hex(d)).collect();
-        format!("wire=[{}] client=[{}] err={} | {}{}", ws.join(","), cs.join(","), show_bool(hk_err), w.show(), arm_out)
+        let rx_out = if let Op::RxRun(_) = &parsed { format!(" | {}", show_chan(&rx_after)) } else { String::new() };
+        format!("wire=[{}] client=[{}] err={} | {}{}{}", ws.join(","), cs.join(","), show_bool(hk_err), w.show(), arm_out, rx_out)
     }
 
     /// The tail of the housekeeping arm of `run_sender_with_config` (src/sender/mod.rs, pinned as `event-loop:
@@ -1462,6 +1557,226 @@ impl SysComp {
                 let was_reset = !c.connected && c.in_flight_packets == 0 && c.batch_sender.queued_count() == 0;
                 mon.count(if new_client.is_some() && was_reset { "partial-send-k-ge-len" } else { "partial-send-k-ge-len-timer-path" });
             }
+        }
+    }
+}
+
+// ------------------------------------------------------------------------------------------ B1: receive side
+
+fn show_chan(v: &[(u64, Vec<u8>)]) -> String {
+    let es: Vec<String> = v.iter().map(|(id, b)| format!("{id}:{}:{}", b.len(), fnv_bytes(b))).collect();
+    format!("chan=[{}]", es.join(","))
+}
+
+/// `hex` or `N*hex` (N copies, 1..=200), comma separated; at most 400 datagrams of at most 4000 bytes.
+fn parse_rx_specs(s: &str) -> Option<Vec<Vec<u8>>> {
+    let mut out = Vec::new();
+    for t in s.split(',') {
+        let parts: Vec<&str> = t.split('*').collect();
+        match parts.as_slice() {
+            [h] => out.push(parse_hex(h)?),
+            [n, h] => {
+                if n.is_empty() || n.len() > 18 || !n.bytes().all(|b| b.is_ascii_digit()) {
+                    return None;
+                }
+                let n: usize = n.parse().ok()?;
+                if n == 0 || n > 200 {
+                    return None;
+                }
+                let b = parse_hex(h)?;
+                for _ in 0..n {
+                    out.push(b.clone());
+                }
+            }
+            _ => return None,
+        }
+    }
+    if out.len() > 400 || out.iter().any(|b| b.len() > 4000) {
+        return None;
+    }
+    Some(out)
+}
+
+impl World {
+    /// The whole content of the REAL packet channel, oldest first; every packet is put back in the same order
+    /// (the reader tasks only run inside `block_on`, so nothing can slip in between).
+    fn chan_snapshot(&mut self) -> Vec<(u64, Vec<u8>)> {
+        let mut v = Vec::new();
+        while let Ok(p) = self._packet_rx.try_recv() {
+            v.push((p.conn_id, p.bytes.to_vec()));
+        }
+        for (id, b) in &v {
+            let _ = self.packet_tx.send(UplinkPacket { conn_id: *id, bytes: SmallVec::from_slice_copy(b) });
+        }
+        v
+    }
+}
+
+impl SysComp {
+    /// `rxpush <cid> <specs>`: the datagrams ARRIVE at uplink `cid` - the harness receiver of that uplink sends them to
+    /// the uplink's REAL current socket; then the REAL reader task runs until the channel holds what was sent
+    /// (bounded wait, no timing assertion).  Observation: the channel content.
+    fn rx_push(&mut self, cid: &str, specs: &str, mon: &mut Mon) -> String {
+        let (Ok(cid), Some(ds)) = (cid.parse::<u64>(), parse_rx_specs(specs)) else { return "bad-op".into() };
+        if self.unmodelled {
+            return "unmodelled".into();
+        }
+        let before = self.w.as_mut().unwrap().chan_snapshot();
+        let mut expected: Vec<Vec<u8>> = Vec::new();
+        {
+            let w = self.w.as_mut().unwrap();
+            let present = w.links.iter().any(|c| c.conn_id == cid);
+            if let (true, Some(io), Some(recv)) = (present, w.io.get(&cid), w.receivers.get(&cid)) {
+                if let Some(local) = io.socket.get_ref().local_addr().ok().and_then(|a| a.as_socket()) {
+                    for d in &ds {
+                        match recv.send_to(d, local) {
+                            Ok(_) => {
+                                if !d.is_empty() {
+                                    expected.push(d[..d.len().min(1500)].to_vec());
+                                }
+                                mon.count(if d.is_empty() { "rx-push-empty" } else if d.len() > 1500 { "rx-push-oversize" } else { "rx-push" });
+                            }
+                            Err(_) => mon.count("rx-push-send-failed"),
+                        }
+                    }
+                    if ds.len() > 32 {
+                        mon.count("rx-push-over-one-recvmmsg-batch");
+                    }
+                    let target = before.len() + expected.len();
+                    let rx = &w._packet_rx;
+                    self.rt.block_on(async {
+                        for round in 0..3000 {
+                            if rx.len() >= target && round >= 2 {
+                                break;
+                            }
+                            tokio::time::sleep(std::time::Duration::from_millis(if round < 50 { 0 } else { 1 })).await;
+                        }
+                    });
+                }
+            } else {
+                mon.count("rx-push-no-such-uplink");
+            }
+        }
+        let after = self.w.as_mut().unwrap().chan_snapshot();
+        // ---- monitors (C09: "a datagram arrives on an uplink"): what the reader delivered into the channel
+        if after.len() < before.len() || after[..before.len()] != before[..] {
+            mon.fail("C09", "rx-order", format!("`rxpush {cid}`: the packets already queued in the channel changed ({} before, {} after)", before.len(), after.len()));
+        } else {
+            let new: Vec<&(u64, Vec<u8>)> = after[before.len()..].iter().collect();
+            let got: Vec<&Vec<u8>> = new.iter().filter(|(id, b)| *id == cid && !b.is_empty()).map(|(_, b)| b).collect();
+            if new.iter().any(|(id, _)| *id != cid) {
+                mon.fail("C09", "rx-order", format!("`rxpush {cid}`: a packet stamped with another conn id appeared in the channel"));
+            }
+            for e in &expected {
+                let n = got.iter().filter(|g| **g == e).count();
+                let m = expected.iter().filter(|x| *x == e).count();
+                if n < m {
+                    mon.fail("C09", "rx-datagram-not-delivered", format!("a datagram of {} bytes sent to the current socket of uplink {cid} did not reach the packet channel ({n} of {m} copies; bounded wait of ~3 s)", e.len()));
+                    break;
+                }
+                if n > m {
+                    mon.fail("C09", "rx-delivered-twice", format!("a datagram of {} bytes sent {m} time(s) to uplink {cid} is {n} times in the packet channel", e.len()));
+                    break;
+                }
+            }
+            if got.len() == expected.len() && got.iter().zip(expected.iter()).any(|(g, e)| *g != e) {
+                mon.fail("C09", "rx-order", format!("uplink {cid}: the reader delivered the datagrams in another order than they arrived"));
+            }
+            if got.len() > expected.len() {
+                mon.fail("C09", "rx-delivered-twice", format!("uplink {cid}: {} datagrams sent, {} packets delivered into the channel", expected.len(), got.len()));
+            }
+        }
+        self.g.rx_sent.entry(cid).or_default().extend(expected);
+        show_chan(&after)
+    }
+
+    /// `rxerr <cid>`: the reader of `cid` reports a receive error.  The error itself is NOT provoked on the socket: the
+    /// harness puts into the REAL channel what the reader's `Err` arm sends (the empty sentinel), if `cid` has a reader.
+    fn rx_err(&mut self, cid: &str, mon: &mut Mon) -> String {
+        let Ok(cid) = cid.parse::<u64>() else { return "bad-op".into() };
+        if self.unmodelled {
+            return "unmodelled".into();
+        }
+        let w = self.w.as_mut().unwrap();
+        if w.readers.contains_key(&cid) {
+            let _ = w.packet_tx.send(UplinkPacket { conn_id: cid, bytes: SmallVec::new() });
+            mon.count("rx-error-sentinel");
+        }
+        let after = w.chan_snapshot();
+        show_chan(&after)
+    }
+
+    /// Monitors of op `rxrun`, from C09's text, on the RAW observations (channel before / after, client socket).
+    /// Returns the equivalent `uplink` op when exactly one datagram of two or more bytes was handed to the shell.
+    #[allow(clippy::too_many_arguments)]
+    fn rx_run_monitors(
+        &mut self,
+        now: u64,
+        before: &[(u64, Vec<u8>)],
+        after: &[(u64, Vec<u8>)],
+        client_known: bool,
+        pre_ids: &[u64],
+        client: &[Vec<u8>],
+        mon: &mut Mon,
+    ) -> Option<String> {
+        mon.count("rx-run");
+        let taken = before.len() - after.len().min(before.len());
+        if taken != before.len().min(64) || before[taken..] != after[..] {
+            mon.fail("C09", "rx-order", format!("drain_packet_queue took {taken} of {} queued packets (budget 64) or re-ordered the rest", before.len()));
+        }
+        if before.len() > 64 {
+            mon.count("rx-run-over-drain-budget");
+        }
+        let handed = &before[..taken.min(before.len())];
+        // every relayable datagram that was handed over reaches the client, in order; nothing else does
+        let mut want: Vec<&Vec<u8>> = Vec::new();
+        for (id, b) in handed {
+            if b.is_empty() {
+                mon.count("rx-run-sentinel");
+                continue;
+            }
+            if let Some(q) = self.g.rx_sent.get_mut(id) {
+                match q.front() {
+                    Some(f) if f == b => {
+                        q.pop_front();
+                    }
+                    _ => mon.fail("C09", "rx-order", format!("uplink {id}: the shell was handed a datagram of {} bytes that is not the oldest one outstanding on that uplink's socket", b.len())),
+                }
+            }
+            if b.len() >= 2 && pre_ids.contains(id) {
+                self.g.heard_at.insert(*id, now);
+                let pt = get_packet_type(b).unwrap();
+                if !is_registration(pt) || pt == SRTLA_TYPE_REG3 {
+                    self.g.live_at.insert(*id, now);
+                }
+                if client_known && !is_internal(pt) {
+                    want.push(b);
+                }
+            }
+        }
+        let mut k = 0;
+        for d in client {
+            if k < want.len() && d == want[k] {
+                k += 1;
+            } else if k > 0 && d == want[k - 1] {
+                // the second copy of an SRT ACK (fast path + forward list)
+                if get_packet_type(d) != Some(SRT_TYPE_ACK) {
+                    mon.fail("C09", "rx-delivered-twice", format!("a relayed datagram of {} bytes (not an SRT ACK) reached the client twice", d.len()));
+                }
+            } else {
+                mon.fail("C09", "rx-order", format!("the client received a datagram of {} bytes that is not the next relayable datagram handed to the shell", d.len()));
+            }
+        }
+        if k < want.len() {
+            mon.fail("C09", "rx-datagram-not-delivered", format!("{} relayable datagram(s) were handed to the shell by the drain, only {k} reached the client", want.len()));
+        }
+        if !want.is_empty() {
+            mon.count("rx-run-relayed");
+        }
+        let solid: Vec<&(u64, Vec<u8>)> = handed.iter().filter(|(_, b)| b.len() >= 2).collect();
+        match solid.as_slice() {
+            [(id, b)] => Some(format!("uplink {now} {id} {}", to_hex(b))),
+            _ => None,
         }
     }
 }
@@ -1632,10 +1947,8 @@ impl SysComp {
                 if let Some(rx) = w.receivers.remove(&r.id) {
                     w.removed_rx.push((r.id, rx));
                 }
-                if let Some(h) = w.readers.remove(&r.id) {
-                    h.handle.abort();
-                }
                 w.dead.remove(&r.id);
+                self.g.rx_sent.remove(&r.id);
                 // C01 accounting: a datagram queued on an uplink that is no longer listed is discarded with it
                 if !listed(r) {
                     for d in &r.queue {
@@ -1645,6 +1958,22 @@ impl SysComp {
                         }
                     }
                 }
+            }
+        }
+        // B1: the arm calls the REAL `sync_readers` right after `apply_connection_changes` (readers of the removed conn
+        // ids aborted and dropped, one reader spawned per new uplink on its socket)
+        {
+            let _guard = self.rt.enter();
+            let w = self.w.as_mut().unwrap();
+            sync_readers(&w.links, &w.io, &mut w.readers, &w.packet_tx);
+            for c in &w.links {
+                if !w.readers.contains_key(&c.conn_id) {
+                    mon.fail("C09", "rx-no-reader-for-uplink", format!("after `{op}` + sync_readers the uplink {} has no reader task", c.conn_id));
+                }
+            }
+            let ids: BTreeSet<u64> = w.links.iter().map(|c| c.conn_id).collect();
+            if w.readers.keys().any(|k| !ids.contains(k)) {
+                mon.fail("C09", "rx-reader-for-removed-uplink", format!("after `{op}` + sync_readers a reader task is left for a conn id no uplink has"));
             }
         }
         let (wire, client) = self.w.as_mut().unwrap().capture();
